@@ -23,13 +23,14 @@ type G struct {
 	caseNo   int
 	pool     *Pool // lazily built lineage pool
 	opName   string
+	negZero  bool // ops_io.go: ioFloat may produce -0.0
 }
 
 func newG(seed int64, op string, thorough bool) *G {
 	h := fnv.New64a()
 	_, _ = h.Write([]byte(op))
 	s := seed*1000003 + int64(h.Sum64()&0x7fffffff)
-	return &G{gr: rand.New(rand.NewSource(s)), thorough: thorough, opName: op}
+	return &G{gr: rand.New(rand.NewSource(s)), thorough: thorough, opName: op, negZero: true}
 }
 
 func (g *G) intn(n int) int       { return g.gr.Intn(n) }
